@@ -175,3 +175,30 @@ def fixed_random(sim, values):
         state["i"] += 1
         return v
     sim.patch.set(C, "random", rnd)
+
+
+def legacy_system_tables(node, conn, req):
+    """on_request helper for protocol 1/2: sim/wire.enc_value encodes collections in the v3+
+    layout only, so the `tokens` set of system.local / system.peers cannot be decoded by a v1/v2
+    client (the peer rows are then rejected as invalid).  Serve those tables without the tokens
+    column (what a cluster with token_metadata_enabled=False looks like).  Returns an action or None."""
+    from sim import wire
+    if req["op"] != "QUERY" or req["version"] >= 3:
+        return None
+    q = req.get("query", "").strip()
+    qu = q.upper()
+    if not qu.startswith("SELECT") or "SYSTEM.PEERS_V2" in qu:
+        return None
+    if "SYSTEM.PEERS" in qu:
+        cols, rows, table = list(node.PEER_COLS), node.peer_rows(), "peers"
+    elif "SYSTEM.LOCAL" in qu:
+        cols, rows, table = list(node.LOCAL_COLS), [node.local_row()], "local"
+    else:
+        return None
+    cols = [c for c in cols if c[0] != "tokens"]
+    sel = q[len("SELECT "):qu.index(" FROM ")].strip()
+    if sel != "*":
+        want = [c.strip() for c in sel.split(",")]
+        cols = [c for c in cols if c[0] in want]
+    data = [[r.get(c[0]) for c in cols] for r in rows]
+    return ("reply", "RESULT", wire.result_rows(cols, data, ks="system", table=table, version=req["version"]))
